@@ -415,6 +415,12 @@ class Interp:
                 raise Undecided(f"arithmetic on {v.what}")
             if isinstance(v, (Fn, Obj, Closure)) or v is None:
                 raise Undecided("arithmetic on a non-number")
+        if isinstance(a, str) and isinstance(b, str) and isinstance(op, ast.Add):
+            return a + b
+        if isinstance(a, (bool, np.bool_)):
+            a = int(a)
+        if isinstance(b, (bool, np.bool_)):
+            b = int(b)
         if isinstance(a, (list, tuple)) or isinstance(b, (list, tuple)):
             if isinstance(op, ast.Add) and isinstance(a, (list, tuple)) and isinstance(b, type(a)):
                 return a + b
@@ -471,7 +477,7 @@ class Interp:
                 self._glob_cache[e.id] = v
                 return v
             if e.id in ("float", "int", "len", "range", "enumerate", "list", "tuple", "min", "max", "isinstance",
-                        "callable", "zip", "Number", "Real", "Integral", "bool", "abs", "reversed", "sum", "dict", "type", "slice", "sorted"):
+                        "callable", "zip", "Number", "Real", "Integral", "bool", "abs", "reversed", "sum", "dict", "type", "slice", "sorted", "str"):
                 return ("builtin", e.id)
             raise Undecided(f"name `{e.id}`")
         if isinstance(e, ast.UnaryOp):
@@ -509,6 +515,25 @@ class Interp:
             return out if isinstance(e, ast.List) else tuple(out)
         if isinstance(e, (ast.ListComp, ast.GeneratorExp)):
             return self.comp(e, env)
+        if isinstance(e, ast.DictComp):
+            out = {}
+
+            def rec(gens, env2):
+                if not gens:
+                    out[self.ev(e.key, env2)] = self.ev(e.value, env2)
+                    return
+                g = gens[0]
+                it = self.ev(g.iter, env2)
+                it = list(it) if isinstance(it, np.ndarray) else it
+                if not isinstance(it, (list, tuple, range)):
+                    raise Undecided(f"comprehension over `{norm(g.iter)[:40]}`")
+                for x in it:
+                    env3 = dict(env2)
+                    self.assign(g.target, x, env3)
+                    if all(self.truth(self.ev(c, env3)) for c in g.ifs):
+                        rec(gens[1:], env3)
+            rec(list(e.generators), env)
+            return out
         if isinstance(e, ast.Dict):
             if any(k is None for k in e.keys):
                 raise Undecided("dict unpacking in a display")
@@ -564,6 +589,9 @@ class Interp:
                     raise Undecided("membership test on symbolic data")
                 r = left in right
                 r = r if isinstance(op, ast.In) else not r
+            elif isinstance(left, (tuple, list)) and isinstance(right, (tuple, list)) and isinstance(op, (ast.Eq, ast.NotEq)) and \
+                    all(isinstance(x, (int, str, bool, type(None))) for x in list(left) + list(right)):
+                r = (list(left) == list(right)) if isinstance(op, ast.Eq) else (list(left) != list(right))
             elif isinstance(left, str) and isinstance(right, str) and isinstance(op, (ast.Eq, ast.NotEq)):
                 r = (left == right) if isinstance(op, ast.Eq) else (left != right)
             elif isinstance(left, np.ndarray) or isinstance(right, np.ndarray):
@@ -665,6 +693,8 @@ class Interp:
                 return base.T
             if e.attr in ("dot", "copy", "flatten", "ravel", "astype", "sum", "reshape", "tolist"):
                 return ("method", base, e.attr)
+        if isinstance(base, sp.Basic) and e.attr in ("evalf", "subs", "expand"):
+            return ("method", base, "sympy." + e.attr)
         if isinstance(base, list) and e.attr in ("append", "extend", "insert", "copy", "index", "count"):
             return ("method", base, e.attr)
         if isinstance(base, dict) and e.attr in ("setdefault", "get", "items", "keys", "values"):
@@ -696,6 +726,13 @@ class Interp:
             return self.call_def(self.module_funcs[f[1]], args, kw, {})
         if isinstance(f, tuple) and f[0] == "method":
             _, base, name = f
+            if name in ("sympy.evalf", "sympy.subs"):
+                mapping = kw.get("subs", args[0] if args else {})
+                if not isinstance(mapping, dict):
+                    raise Undecided("substitution that is not a dictionary")
+                return base.subs({(sp.Symbol(k) if isinstance(k, str) else k): v for k, v in mapping.items()})
+            if name == "sympy.expand":
+                return sp.expand(base)
             if name == "dot":
                 other = args[0]
                 if not isinstance(other, np.ndarray):
@@ -772,6 +809,10 @@ class Interp:
             return isinstance(args[0], (Fn, Closure))
         if name == "dict":
             return dict(args[0]) if args else dict(kw)
+        if name == "str":
+            if isinstance(args[0], (int, str)) and not isinstance(args[0], bool):
+                return str(args[0])
+            raise Undecided("str of symbolic data")
         if name == "slice":
             return slice(*[None if a is None else self._int(a) for a in args])
         if name == "type":
@@ -845,8 +886,8 @@ class Interp:
             return a.dot(b)
         if name == "pi":
             return sp.pi
-        if name in ("sin", "cos", "tan", "sqrt", "arccos", "arctan2"):
-            fn = {"sin": sp.sin, "cos": sp.cos, "tan": sp.tan, "sqrt": sp.sqrt, "arccos": sp.acos, "arctan2": sp.atan2}[name]
+        if name in ("sin", "cos", "tan", "sqrt", "arccos", "arctan2", "log"):
+            fn = {"sin": sp.sin, "cos": sp.cos, "tan": sp.tan, "sqrt": sp.sqrt, "arccos": sp.acos, "arctan2": sp.atan2, "log": sp.log}[name]
             vals = [a if isinstance(a, np.ndarray) else None for a in args]
             arrs = [a for a in vals if a is not None]
             if arrs:
